@@ -3,6 +3,7 @@ package vegeta_test
 import (
 	"bytes"
 	"encoding/base64"
+	"encoding/json"
 	"fmt"
 	"hash/fnv"
 	"net/http"
@@ -230,6 +231,141 @@ func c16ValidDoc(t *rapid.T, parser string) []byte {
 	}
 }
 
+// ---- documents built from the grammar of each format, with hostile values in every position
+// (byte-level mutation of a valid document practically never produces, say, a valid base64
+// column whose *decoded* content is malformed, or a JSON object with a repeated key)
+
+var c16HeaderBlocks = []string{"", "\r\n", "K: v\r\n", " folded first line\r\n", "\tfolded first line\r\n", "K: v\r\n continued\r\n", "NoColon\r\n", ": no key\r\n",
+	"K:\r\n", "K: v", "K: v\r\n\r\nafter the end\r\n", "K: v\nL: w\n", "K : v\r\n", "\x00: v\r\n", "K: \xff\xfe\r\n", "K: v\r\n\tmore\r\n more\r\nL: w\r\n",
+	"  \r\n", "\r\nK: v\r\n", "K: v\r\nK: w\r\nk: x\r\n", strings.Repeat("X-Long-Key", 300) + ": v\r\n", "K: " + strings.Repeat("v", 5000) + "\r\n", ":\r\n", " \r\n x\r\n"}
+
+func c16B64(t *rapid.T, l string, pool []string) string {
+	switch rapid.IntRange(0, 7).Draw(t, l+".b64") {
+	case 0:
+		return rapid.SampledFrom([]string{"", "=", "====", "AAA", "A===", "!!!!", "DQo", "DQo=DQo=", " DQo=", "Zm9v\nYmFy"}).Draw(t, l+".bad")
+	case 1:
+		return base64.StdEncoding.EncodeToString(rapid.SliceOfN(rapid.Byte(), 0, 40).Draw(t, l+".rnd"))
+	case 2:
+		return base64.RawURLEncoding.EncodeToString([]byte(rapid.SampledFrom(pool).Draw(t, l+".url")))
+	default:
+		return base64.StdEncoding.EncodeToString([]byte(rapid.SampledFrom(pool).Draw(t, l+".v")))
+	}
+}
+
+var c16Nums = []string{"0", "1", "200", "-1", "65535", "65536", "18446744073709551615", "18446744073709551616", "9223372036854775807", "-9223372036854775808", "", " 1", "1 ", "+1", "1.5", "1e3", "0x10", "NaN", "abc", "٣"}
+
+func c16CSVField(t *rapid.T, l, v string) string {
+	switch rapid.IntRange(0, 5).Draw(t, l+".q") {
+	case 0:
+		return `"` + strings.ReplaceAll(v, `"`, `""`) + `"`
+	case 1:
+		return `"` + v // unterminated quote
+	default:
+		return v
+	}
+}
+
+var c16JSONValues = []string{`null`, `{}`, `[]`, `""`, `"x"`, `0`, `-1`, `200`, `1.5`, `1e400`, `18446744073709551616`, `true`, `{"K":["v"]}`, `{"K":[]}`, `{"K":null}`, `{"K":"v"}`, `{"K":[1]}`,
+	`{"K":["v"],"K":["w"]}`, `{"":[""]}`, `[["v"]]`, `{"K":{"L":["v"]}}`, `"DQo="`, `"!!!"`, `"2006-01-02T15:04:05Z"`, `"2006-01-02T15:04:05.999999999+14:00"`, `"0000-00-00T00:00:00Z"`, `"GET"`, `"http://h.test/"`, `"://"`,
+	`"\ud800"`, `"\u0000"`, `{"K":["v"]`, `[`, `{"a":`, strings.Repeat("[", 200) + strings.Repeat("]", 200)}
+
+func c16Grammar(t *rapid.T, parser string) []byte {
+	var b strings.Builder
+	switch parser {
+	case "results":
+		if rapid.Bool().Draw(t, "csv") {
+			for i, n := 0, rapid.IntRange(1, 3).Draw(t, "nrec"); i < n; i++ {
+				nf := rapid.SampledFrom([]int{12, 12, 12, 12, 11, 13, 1, 0}).Draw(t, fmt.Sprintf("nf%d", i))
+				var fs []string
+				// a record is valid except in one or two attacked columns (a decoder gives up at the first bad one)
+				valid := []string{"1500000000000000000", "200", "1000000", "10", "20", "", "Ym9keQ==", "attack", "7", "GET", "http://h.test/", "Szogdg0K"}
+				a1, a2 := rapid.IntRange(0, 12).Draw(t, fmt.Sprintf("a1.%d", i)), rapid.SampledFrom([]int{-1, -1, 5, 6, 11, 11}).Draw(t, fmt.Sprintf("a2.%d", i))
+				if rapid.IntRange(0, 2).Draw(t, fmt.Sprintf("hdr%d", i)) == 0 {
+					a1 = 11
+				}
+				for f := 0; f < nf; f++ {
+					l := fmt.Sprintf("r%d.f%d", i, f)
+					if f != a1 && f != a2 && f < len(valid) {
+						fs = append(fs, valid[f])
+						continue
+					}
+					var v string
+					switch {
+					case f == 6 || (f >= 12 && rapid.Bool().Draw(t, l+".x")): // body
+						v = c16B64(t, l, []string{"", "body", "\x00\xff", strings.Repeat("b", 3000)})
+					case f == 11: // header block
+						v = c16B64(t, l, c16HeaderBlocks)
+					case f == 5 || f == 7 || f == 9 || f == 10: // error, attack, method, url
+						v = vgen.Text(t, l)
+					default:
+						v = rapid.SampledFrom(c16Nums).Draw(t, l)
+					}
+					fs = append(fs, c16CSVField(t, l, v))
+				}
+				b.WriteString(strings.Join(fs, ","))
+				b.WriteString(rapid.SampledFrom([]string{"\n", "\n", "\r\n", "", "\n\n"}).Draw(t, fmt.Sprintf("eol%d", i)))
+			}
+			return []byte(b.String())
+		}
+		keys := append([]string{"Attack", "CODE", "x", ""}, vgen.JSONFields...)
+		for i, n := 0, rapid.IntRange(1, 3).Draw(t, "nrec"); i < n; i++ {
+			b.WriteString("{")
+			for f, nf := 0, rapid.IntRange(0, 8).Draw(t, fmt.Sprintf("nf%d", i)); f < nf; f++ {
+				if f > 0 {
+					b.WriteString(",")
+				}
+				l := fmt.Sprintf("r%d.f%d", i, f)
+				k, _ := json.Marshal(rapid.SampledFrom(keys).Draw(t, l+".k"))
+				b.Write(k)
+				b.WriteString(":")
+				b.WriteString(rapid.SampledFrom(c16JSONValues).Draw(t, l+".v"))
+			}
+			b.WriteString(rapid.SampledFrom([]string{"}\n", "}\n", "}", "}}\n", "\n", "} \n"}).Draw(t, fmt.Sprintf("end%d", i)))
+		}
+	case "targets-json":
+		keys := []string{"method", "url", "body", "header", "header", "header", "Method", "headers", "x", ""}
+		for i, n := 0, rapid.IntRange(1, 3).Draw(t, "nrec"); i < n; i++ {
+			b.WriteString(rapid.SampledFrom([]string{"{", "{", "{", " {", "[", "\ufeff{"}).Draw(t, fmt.Sprintf("open%d", i)))
+			if rapid.IntRange(0, 2).Draw(t, fmt.Sprintf("wellformed%d", i)) != 0 {
+				b.WriteString(`"method":"GET","url":"http://h.test/"`) // a usable target, so that the odd members are reached
+				if rapid.Bool().Draw(t, fmt.Sprintf("more%d", i)) {
+					b.WriteString(",")
+				} else {
+					b.WriteString("}\n")
+					continue
+				}
+			}
+			for f, nf := 0, rapid.IntRange(1, 6).Draw(t, fmt.Sprintf("nf%d", i)); f < nf; f++ {
+				if f > 0 {
+					b.WriteString(",")
+				}
+				l := fmt.Sprintf("t%d.f%d", i, f)
+				k, _ := json.Marshal(rapid.SampledFrom(keys).Draw(t, l+".k"))
+				b.Write(k)
+				b.WriteString(rapid.SampledFrom([]string{":", ":", " : ", ""}).Draw(t, l+".c"))
+				b.WriteString(rapid.SampledFrom(c16JSONValues).Draw(t, l+".v"))
+			}
+			b.WriteString(rapid.SampledFrom([]string{"}\n", "}\n", "}", "}}\n", "\n", "]\n"}).Draw(t, fmt.Sprintf("end%d", i)))
+		}
+	case "targets-http":
+		pool := []string{"GET http://h.test/", "POST http://h.test/p?q=1", "GET", "GET  http://h.test/", "get http://h.test/", "GET /relative", "GET http://h.test/ extra", "GET http://[::1", "G\x00T http://h.test/",
+			"X-H: v", "X-H:v", "X-H:", ": v", "NoColon", " X-H: v", "X-H : v", "X-H: v: w", "X-H: " + strings.Repeat("v", 5000), "é: ü", "@/etc/hostname", "@", "@ ", "@/nonexistent/x", "@@", " @/etc/hostname",
+			"", " ", "\t", "# comment", " # indented comment", "#", "\t#@/etc/hostname", "#GET http://h.test/", "\r", "GET http://h.test/\r", "\x00", strings.Repeat("x", 70000)}
+		for i, n := 0, rapid.IntRange(1, 12).Draw(t, "nlines"); i < n; i++ {
+			b.WriteString(rapid.SampledFrom(pool).Draw(t, fmt.Sprintf("l%d", i)))
+			if i < n-1 || rapid.Bool().Draw(t, "final") {
+				b.WriteString("\n")
+			}
+		}
+	default:
+		parts := []string{"[", "]", ",", " ", "0", "1ms", "1s", "-1s", "1h", "1", "ms", "1e3s", "9999999h", "0s", "1ms", "[0", ",,", "1.5ms", ".5s", "+1s", "∞"}
+		for i, n := 0, rapid.IntRange(0, 8).Draw(t, "nparts"); i < n; i++ {
+			b.WriteString(rapid.SampledFrom(parts).Draw(t, fmt.Sprintf("p%d", i)))
+		}
+	}
+	return []byte(b.String())
+}
+
 func TestC16Parsers(t *testing.T) {
 	vh.Regress(t, "C16")
 	vh.ShrinkTime("5s")
@@ -237,6 +373,9 @@ func TestC16Parsers(t *testing.T) {
 		c := c16Case{Parser: rapid.SampledFrom([]string{"results", "results", "targets-http", "targets-http", "targets-json", "buckets"}).Draw(t, "parser")}
 		kind := "mutated"
 		switch rapid.IntRange(0, 9).Draw(t, "kind") {
+		case 2, 3, 4:
+			kind = "grammar"
+			c.Input = c16Grammar(t, c.Parser)
 		case 0:
 			kind = "random-bytes"
 			c.Input = rapid.SliceOfN(rapid.Byte(), 0, 400).Draw(t, "bytes")
